@@ -32,6 +32,9 @@ def run(prop, tier, seed):
         for ms in ((6, 9) if quick else (6, 8, 10, 12)):
             n = "C10_ga%d.cfg" % ms
             gens.append({"module": "MC_AsyncRef.tla", "cfg": n, "workers": 8, "extra_defs": {n: cfg_a("KAll", 3, ms, True)}})
+        # a coroutine whose result the parameter rejects (the task fails while applying it), then more assignments
+        n = "C10_gb.cfg"
+        gens.append({"module": "MC_AsyncRef.tla", "cfg": n, "workers": 8, "extra_defs": {n: cfg_a("KBad", 3, 9 if quick else 11, True)}})
         n = "C10_sa.cfg"
         gens.append({"module": "MC_AsyncRef.tla", "cfg": n, "workers": 8, "simulate": 300 if quick else 10000, "depth": 20, "seed": seed,
                      "extra_defs": {n: cfg_a("KAll", 4, 16, True)}})
@@ -46,6 +49,6 @@ def run(prop, tier, seed):
     kf = core.KnownFindings(prop)
     return pipeline.finish(prop, tier, seed, t0, [pst, rst, rst2],
                            rule="non-trivial: at least one task step applied, stored or dropped a result",
-                           assumptions=["<=3-4 assignments (coroutine / async generator with two yields / plain value), every interleaving of assignment, completion and single loop steps up to the step bound",
+                           assumptions=["<=3-4 assignments (coroutine / async generator with two yields / plain value / coroutine whose result is rejected; each behaviour replayed with a fresh function object per assignment and with one shared function object), every interleaving of assignment, completion and single loop steps up to the step bound",
                                         "replay on a single-step event loop owned by the driver (harness/steploop.py; CPython 3.12 task internals, self-tested)",
                                         "LatestWins / NoLateApply are claimed for behaviours the specification does not mark tainted (task registered only at its own first step: known finding)"])
